@@ -187,8 +187,12 @@ def handle (case impl : List String) : Verdict :=
       -- short reads do not change the byte stream; an io::Error ends it (read_pnm: map_while(io::Result::ok))
       let seen := if op == "readfail" then bytes.take k else bytes
       let want := parseTok seen
+      -- readshort carries a trailing `rd:same|rd:diff`: the implementation's own parse_pnm on the same bytes
+      let rd := if op == "readshort" then impl.getLast?.getD "" else "rd:same"
+      let impl := if op == "readshort" then impl.dropLast else impl
       let v : Verdict := { tags := [op, formatTag bytes, resultKind impl] }
-      let v := v.withDiff (impl != want) s!"model {" ".intercalate want}"
+      let v := v.withDiff (!sameDecode impl want) s!"model {" ".intercalate want}"
+      let v := v.withSpec (rd != "rd:same") "read-pnm-differs" "read_pnm from a reader that delivers the bytes in small pieces and parse_pnm disagree on the same bytes"
       match judgeDecode seen impl with
       | some (key, m) => v.withSpec true key m
       | none => v
